@@ -286,7 +286,9 @@ def finish(pack, results, wall, tier, seed, write_evidence=True):
         "backends": dict(solver.STATS.by_backend),
         "solver_time_s": round(solver.STATS.time, 3),
         "solver_queries": solver.STATS.queries,
-        "cvc5_recheck": ("every VC proved by z3 was re-discharged by cvc5 (agreement required; cvc5 timeouts are counted as unknown, a refutation is a checker error)" if solver.CROSS else "not in this tier (cvc5 only for z3 unknowns)"),
+        "cvc5_recheck": (f"VCs proved by z3 were handed to cvc5 as well ({solver.CROSS_QUERY_MS} ms per VC, {solver.CROSS_BUDGET_S:.0f} s per worker process): "
+                         + ", ".join(f"{k.split(':')[1]} {v}" for k, v in sorted(solver.STATS.by_backend.items()) if k.startswith("cvc5-recheck:"))
+                         + "; agreement is required where cvc5 answers: a refutation by cvc5 is a checker error (exit 3), timeouts / skipped VCs rest on z3 alone" if solver.CROSS else "not in this tier (cvc5 only for z3 unknowns)"),
         "obligation_status": by_status,
         "paths_explored": sum(r.paths for r in real),
         "loop_modes": pack.loop_modes,
